@@ -70,6 +70,28 @@ Provenance(o, reps, RL) ==
         have == UNION { RangeOf(r.samples) : r \in G } IN
     \A i \in DOMAIN o.samples : o.samples[i] \in have
 
+(* ---- which part of the world a query can see ---------------------------- *)
+(* S = the stores that take part: all of them, or only those the store         *)
+(* matchers select, minus stores that are down while the warn strategy lets     *)
+(* the query go on.  A replica series is seen through its chunks on S.          *)
+ChunksOn(r, S) == SelectSeq(r.chunks, LAMBDA c : c.st \in S)
+Scoped(reps, S) == { [r EXCEPT !.chunks = ChunksOn(r, S)] : r \in { x \in reps : ChunksOn(x, S) # <<>> } }
+VisibleSamples(r) ==
+    LET ps == SetToSortSeq(UNION { c.lo..c.hi : c \in RangeOf(r.chunks) }, LAMBDA a, b : a < b)
+    IN [k \in DOMAIN ps |-> r.samples[ps[k]]]
+(* what the property-level operators above take as `reps` *)
+Visible(reps) == { [lbls |-> r.lbls, samples |-> VisibleSamples(r)] : r \in reps }
+
+(* ---- querier behaviour beyond C04 (extensions) ------------------------------ *)
+(* max-source-resolution: a store is never asked for data coarser than allowed,  *)
+(* and for functions that need two samples per range not coarser than range/2.   *)
+TwoSampleFuncs == {"rate", "irate", "increase", "delta", "idelta", "deriv", "predict_linear",
+                   "holt_winters", "double_exponential_smoothing"}
+MaxResOK(asked, allowed, fn, rng) ==
+    asked <= allowed /\ ((fn \in TwoSampleFuncs /\ rng > 0) => asked <= rng \div 2)
+(* the range a store is asked for covers the querier's range *)
+RangeCovers(rmin, rmax, lo, hi) == rmin <= lo /\ rmax >= hi
+
 (* ======================= algorithm level =============================== *)
 (* Chunks as the querier sees them: [min, max, samples, tie].  Two chunks with *)
 (* the same samples have the same bytes (XOR encoding is a function of the     *)
